@@ -6,6 +6,7 @@
 #include "ccl/rslang/Parser.h"
 #include "ccl/rslang/RSGenerator.h"
 #include "ccl/rslang/SyntaxTree.h"
+#include <functional>
 
 using namespace mc;
 using namespace rsast;
@@ -126,6 +127,32 @@ std::vector<Node> space(const Options& opt) {
     auto more2 = h.tops(depth > 1 ? 1 : depth);
     trees.insert(trees.end(), more.begin(), more.end());
     trees.insert(trees.end(), more2.begin(), more2.end());
+  }
+  // tuple-pattern family (added after a round-7 seed): every pattern with <= 3 components per level whose components are locals or
+  // nested patterns (two levels completely; a third level with one deep component), in every declaring position
+  if (opt.num("patterns", 1) != 0) {
+    using rsast::mk; using rsast::leaf;
+    int counter = 0;
+    const char* names[] = { "a", "b", "c", "d", "e", "f", "g", "h", "i", "j", "k", "l" };
+    std::function<Node(const Node&)> rename = [&](const Node& n) { if (n.k == K::Local) return leaf(K::Local, names[counter++ % 12]); Node r = n; r.ch.clear(); for (auto& ch : n.ch) r.ch.push_back(rename(ch)); return r; };
+    const Node v = leaf(K::Local, "a");
+    std::vector<Node> L1 = { mk(K::TupleDecl, { v, v }), mk(K::TupleDecl, { v, v, v }) };
+    std::vector<Node> opts = { v }; opts.insert(opts.end(), L1.begin(), L1.end());
+    std::vector<Node> L2;
+    for (auto& x : opts) for (auto& y : opts) { L2.push_back(mk(K::TupleDecl, { x, y })); for (auto& z : opts) L2.push_back(mk(K::TupleDecl, { x, y, z })); }
+    std::vector<Node> pats = L2;
+    for (auto& deep : L2) { if (deep.ch.size() == 2 && deep.ch[0].ch.empty() && deep.ch[1].ch.empty()) continue; for (auto& x : opts) { pats.push_back(mk(K::TupleDecl, { deep, x })); pats.push_back(mk(K::TupleDecl, { x, deep })); } }
+    const Node dom = leaf(K::Global, e.pools.global); const Node body = mk(K::Eq, { rsast::integer(1), rsast::integer(1) });
+    for (auto& p0 : pats) {
+      counter = 0; const Node pat = rename(p0);
+      trees.push_back(mk(K::Forall, { pat, dom, body }));
+      trees.push_back(mk(K::Exists, { pat, dom, body }));
+      trees.push_back(mk(K::Declarative, { pat, dom, body }));
+      trees.push_back(mk(K::Imperative, { dom, mk(K::Iterate, { pat, dom }) }));
+      trees.push_back(mk(K::Imperative, { dom, mk(K::Assign, { pat, dom }) }));
+      trees.push_back(mk(K::RecShort, { pat, dom, dom }));
+      trees.push_back(mk(K::Forall, { mk(K::EnumDecl, { pat, leaf(K::Local, "z") }), dom, body }));
+    }
   }
   return trees;
 }
